@@ -95,6 +95,9 @@ def is_tuple(v):
 
 
 SEQ_APPS = {"seq", "comp", "repeat", "concat", "list", "shape", "range", "zip"}
+# items of tuple-returning repo functions that are themselves sequences: {fn-app name: {index, ...}} (registered by rule modules
+# after they have confirmed from the source that these return elements are built with tuple(...))
+SEQ_ITEMS = {}
 
 
 def is_seq(v):
@@ -106,6 +109,11 @@ def is_seq(v):
         if a is not None and a[0] == "app":
             if a[1] in SEQ_APPS or a[1] == "attr:shape":
                 return True
+            if a[1] == "getitem" and len(a[2]) == 2 and a[2][1][0] == "P" and a[2][0][0] == "P":
+                ba = T.from_key(a[2][0][1]).single_atom()
+                fr = T.from_key(a[2][1][1]).as_fraction()
+                if ba is not None and ba[0] == "app" and ba[1] in SEQ_ITEMS and fr is not None and int(fr) in SEQ_ITEMS[ba[1]]:
+                    return True
             if a[1] == "getitem" and len(a[2]) == 2 and a[2][1][0] == "P":
                 i = T.from_key(a[2][1][1]).single_atom()
                 if i is not None and i[0] == "app" and i[1] == "slice":
